@@ -33,13 +33,16 @@ RULE = ("(a) every public FormulaManager constructor (core, derived, indexed) x 
 S1 = SORT("S")
 FT = FUN(INT, (REAL,))
 FT2 = FUN(REAL, (INT,))
-BASIS = [BOOL, INT, REAL, STRING, BV(1), BV(4), BV(8), ARR(INT, INT), ARR(BV(4), BV(8)), ARR(INT, BOOL), S1, FT, FT2]
+# a declared sort that merely has the name of a built-in one is another sort
+SINT = SORT("Int")
+BASIS = [BOOL, INT, REAL, STRING, BV(1), BV(4), BV(8), ARR(INT, INT), ARR(BV(4), BV(8)), ARR(INT, BOOL), S1, FT, FT2, SINT]
 
 
 def basis_term(env, ty, k=0, form="symbol"):
     """The k-th argument of sort `ty`: a symbol, a constant (constructors have folding shortcuts that must
     not bypass the typing rules) or a compound term (an ITE over two symbols)."""
-    x = sym("x%s_%d" % (tystr(ty), k), ty)
+    label = "declIntSort" if ty == SINT else tystr(ty)
+    x = sym("x%s_%d" % (label, k), ty)
     if form == "constant":
         if ty == BOOL:
             return pys.build(env, B.const(BOOL, k % 2 == 0))
@@ -57,7 +60,7 @@ def basis_term(env, ty, k=0, form="symbol"):
         return pys.build(env, x)
     if form == "term" and not is_fun(ty):
         c = sym("c_%d" % k, BOOL)
-        y = sym("y%s_%d" % (tystr(ty), k), ty)
+        y = sym("y%s_%d" % (label, k), ty)
         return pys.build(env, ("ITE", (), (c, x, y)))
     return pys.build(env, x)
 
@@ -223,6 +226,15 @@ def applications():
         for bt in (BOOL, INT):
             yield (q, (INT, bt), ("non-symbol-binder",),
                    lambda m, a, q=q: getattr(m, q)([m.Plus(a[0], m.Int(1))], a[1]), None, True)
+            # ... in every position of a longer binder list
+            yield (q, (INT, bt), ("non-symbol-binder-2nd",),
+                   lambda m, a, q=q: getattr(m, q)([a[0], m.Int(3)], a[1]), None, True)
+            yield (q, (INT, INT, bt), ("non-symbol-binder-3rd",),
+                   lambda m, a, q=q: getattr(m, q)([a[0], a[1], m.Plus(a[0], m.Int(1))], a[2]), None, True)
+            yield (q, (INT, INT, bt), ("non-symbol-binder-middle",),
+                   lambda m, a, q=q: getattr(m, q)([a[0], m.Times(a[0], a[0]), a[1]], a[2]), None, True)
+            yield (q, (INT, INT, bt), ("2vars",),
+                   lambda m, a, q=q: getattr(m, q)([a[0], a[1]], a[2]), BOOL if bt == BOOL else None, True)
     # function application
     for ft in (FT, FUN(BOOL, (BV(4), REAL)), FUN(S1, (S1,))):
         for n in (1, 2):
